@@ -1,170 +1,10 @@
-//! Scripted inputs and uniform wrappers ("stream under test") around rrtk's stateful streams, shared
-//! by C04, C05, C10, C11, C12. Plain data in (events), plain data out (`Obs`).
+//! Stream-under-test plumbing: the core (scripted inputs, `Sut`, `build`) lives in
+//! shared/sutcore.rs so that the per-configuration `cfgrun` crate (C19) compiles the very same code;
+//! this file adds the proptest strategies.
 use crate::common::gen;
 use proptest::prelude::*;
-use rrtk::streams::control::*;
-use rrtk::streams::converters::*;
-use rrtk::streams::flow::*;
-use rrtk::streams::math::*;
-use rrtk::*;
-use serde::{Deserialize, Serialize};
-use std::cell::Cell;
+pub use crate::sutcore::*;
 
-pub type E = u8;
-
-/// A getter whose output is set by the test between updates; counts how often it is read.
-pub struct Scripted<T> {
-    pub cur: Output<T, E>,
-    pub reads: Cell<u32>,
-}
-impl<T> Scripted<T> {
-    pub fn new() -> Self {
-        Self { cur: Ok(None), reads: Cell::new(0) }
-    }
-}
-impl<T: Clone> Getter<T, E> for Scripted<T> {
-    fn get(&self) -> Output<T, E> {
-        self.reads.set(self.reads.get() + 1);
-        self.cur.clone()
-    }
-}
-impl<T> Updatable<E> for Scripted<T> {
-    fn update(&mut self) -> NothingOrError<E> {
-        Ok(())
-    }
-}
-/// A clock set by the test.
-pub struct ScriptedClock {
-    pub cur: TimeOutput<E>,
-    pub reads: Cell<u32>,
-}
-impl TimeGetter<E> for ScriptedClock {
-    fn get(&self) -> TimeOutput<E> {
-        self.reads.set(self.reads.get() + 1);
-        self.cur
-    }
-}
-impl Updatable<E> for ScriptedClock {
-    fn update(&mut self) -> NothingOrError<E> {
-        Ok(())
-    }
-}
-
-/// One input event. `P(value, dt)`: a present sample `dt` ns after the previous present sample.
-#[derive(Clone, Copy, Debug, Serialize, Deserialize, PartialEq)]
-pub enum Ev {
-    P(f32, i64),
-    A,
-    E(u8),
-}
-impl Ev {
-    pub fn kind_code(&self) -> u8 {
-        match self {
-            Ev::P(..) => 0,
-            Ev::A => 1,
-            Ev::E(e) => 2 + (*e & 1),
-        }
-    }
-    pub fn is_present(&self) -> bool {
-        matches!(self, Ev::P(..))
-    }
-}
-#[derive(Clone, Copy, Debug, Serialize, Deserialize, PartialEq)]
-pub enum CondEv {
-    T,
-    F,
-    A,
-    E(u8),
-}
-
-pub fn err_code(e: Error<E>) -> i32 {
-    match e {
-        Error::Other(x) => x as i32,
-        Error::FromNone => -1,
-        _ => -2,
-    }
-}
-pub fn mk_err(code: u8) -> Error<E> {
-    Error::Other(code)
-}
-
-/// Normalised observation of a `get()`.
-#[derive(Clone, Debug, PartialEq)]
-pub enum Obs {
-    Err(i32),
-    None,
-    Some(i64, Vec<f32>),
-}
-impl Obs {
-    /// equality modulo NaN==NaN, -0==+0
-    pub fn same(&self, o: &Obs) -> bool {
-        match (self, o) {
-            (Obs::Err(a), Obs::Err(b)) => a == b,
-            (Obs::None, Obs::None) => true,
-            (Obs::Some(t1, v1), Obs::Some(t2, v2)) => t1 == t2 && v1.len() == v2.len() && v1.iter().zip(v2).all(|(a, b)| crate::common::same_f32(*a, *b)),
-            _ => false,
-        }
-    }
-    pub fn shifted(&self, by: i64) -> Obs {
-        match self {
-            Obs::Some(t, v) => Obs::Some(t + by, v.clone()),
-            o => o.clone(),
-        }
-    }
-}
-
-#[derive(Clone, Copy, Debug, Serialize, Deserialize, PartialEq, Eq, Hash)]
-pub enum Kind {
-    Pid,
-    CommandPid,
-    EwmaF32,
-    EwmaQuantity,
-    MovingAverageF32,
-    MovingAverageQuantity,
-    Integral,
-    Derivative,
-    AccelerationToState,
-    VelocityToState,
-    PositionToState,
-    FloatToQuantity,
-    QuantityToFloat,
-    Freeze,
-}
-pub const ALL_KINDS: [Kind; 14] = [
-    Kind::Pid,
-    Kind::CommandPid,
-    Kind::EwmaF32,
-    Kind::EwmaQuantity,
-    Kind::MovingAverageF32,
-    Kind::MovingAverageQuantity,
-    Kind::Integral,
-    Kind::Derivative,
-    Kind::AccelerationToState,
-    Kind::VelocityToState,
-    Kind::PositionToState,
-    Kind::FloatToQuantity,
-    Kind::QuantityToFloat,
-    Kind::Freeze,
-];
-
-#[derive(Clone, Copy, Debug, Serialize, Deserialize, PartialEq)]
-pub struct Params {
-    /// gains kp, ki, kd (PID / CommandPID)
-    pub k: [f32; 3],
-    /// setpoint (PID), command value (CommandPID), smoothing constant (EWMA)
-    pub x: f32,
-    /// command kind for CommandPID: 0 position, 1 velocity, 2 acceleration
-    pub cmd_kind: u8,
-    /// window in ns (moving average)
-    pub window: i64,
-    /// unit of Quantity inputs where free (Integral, Derivative, EWMA/MA Quantity, FloatToQuantity)
-    pub unit: (i8, i8),
-}
-impl Params {
-    pub fn unit(&self) -> Unit {
-        Unit::new(self.unit.0, self.unit.1)
-    }
-}
 pub fn params_strategy() -> BoxedStrategy<Params> {
     (
         [gen::moderate(), gen::moderate(), gen::moderate()],
@@ -175,210 +15,6 @@ pub fn params_strategy() -> BoxedStrategy<Params> {
     )
         .prop_map(|(k, x, cmd_kind, window, unit)| Params { k, x, cmd_kind, window, unit })
         .boxed()
-}
-
-pub fn pd(k: u8) -> PositionDerivative {
-    match k % 3 {
-        0 => PositionDerivative::Position,
-        1 => PositionDerivative::Velocity,
-        _ => PositionDerivative::Acceleration,
-    }
-}
-/// The State fed to CommandPID for a scalar sample `v`: all three components differ.
-pub fn state_of(v: f32) -> State {
-    State::new_raw(v, v * 0.5 + 1.0, -v)
-}
-
-pub struct Sut {
-    /// set what the scripted input returns from now on (`t` = absolute timestamp of a present sample)
-    pub feed: Box<dyn Fn(&Ev, i64)>,
-    pub feed_cond: Box<dyn Fn(&CondEv, i64)>,
-    pub update: Box<dyn FnMut() -> NothingOrError<E>>,
-    pub get: Box<dyn Fn() -> Obs>,
-    /// the unit of the output, when the output is a Quantity
-    pub out_unit: Box<dyn Fn() -> Option<Unit>>,
-    pub input_reads: Box<dyn Fn() -> u32>,
-}
-
-fn out_of<T>(o: Output<T, E>, flat: impl Fn(&T) -> Vec<f32>) -> Obs {
-    match o {
-        Err(e) => Obs::Err(err_code(e)),
-        Ok(None) => Obs::None,
-        Ok(Some(d)) => Obs::Some(d.time.0, flat(&d.value)),
-    }
-}
-fn flat_f32(x: &f32) -> Vec<f32> {
-    vec![*x]
-}
-fn flat_q(x: &Quantity) -> Vec<f32> {
-    vec![x.value]
-}
-fn flat_state(x: &State) -> Vec<f32> {
-    vec![x.position, x.velocity, x.acceleration]
-}
-
-fn assemble<TI: Clone + 'static, TO: 'static, S: Getter<TO, E> + Updatable<E> + 'static>(
-    input: Reference<Scripted<TI>>,
-    stream: S,
-    conv_in: impl Fn(f32) -> TI + 'static,
-    flat: fn(&TO) -> Vec<f32>,
-    unit_of: fn(&TO) -> Option<Unit>,
-) -> Sut {
-    let stream = rc_ref_cell_reference(stream);
-    let (i1, i2) = (input.clone(), input.clone());
-    let (s1, s2, s3) = (stream.clone(), stream.clone(), stream.clone());
-    Sut {
-        feed: Box::new(move |ev, t| {
-            i1.borrow_mut().cur = match ev {
-                Ev::P(v, _) => Ok(Some(Datum::new(Time(t), conv_in(*v)))),
-                Ev::A => Ok(None),
-                Ev::E(e) => Err(mk_err(*e)),
-            };
-        }),
-        feed_cond: Box::new(|_, _| {}),
-        update: Box::new(move || s1.borrow_mut().update()),
-        get: Box::new(move || out_of(s2.borrow().get(), flat)),
-        out_unit: Box::new(move || match s3.borrow().get() {
-            Ok(Some(d)) => unit_of(&d.value),
-            _ => None,
-        }),
-        input_reads: Box::new(move || i2.borrow().reads.get()),
-    }
-}
-fn no_unit<T>(_: &T) -> Option<Unit> {
-    None
-}
-fn q_unit(q: &Quantity) -> Option<Unit> {
-    Some(q.unit)
-}
-
-pub fn command_of(p: &Params) -> Command {
-    Command::new(pd(p.cmd_kind), p.x)
-}
-pub fn kvals_of(p: &Params) -> PositionDerivativeDependentPIDKValues {
-    // the same gains rotated per kind so that using the wrong kind's gains is visible
-    PositionDerivativeDependentPIDKValues::new(
-        PIDKValues::new(p.k[0], p.k[1], p.k[2]),
-        PIDKValues::new(p.k[1], p.k[2], p.k[0]),
-        PIDKValues::new(p.k[2], p.k[0], p.k[1]),
-    )
-}
-pub fn gains_for(p: &Params, kind: u8) -> [f32; 3] {
-    match kind % 3 {
-        0 => [p.k[0], p.k[1], p.k[2]],
-        1 => [p.k[1], p.k[2], p.k[0]],
-        _ => [p.k[2], p.k[0], p.k[1]],
-    }
-}
-
-pub fn build(kind: Kind, p: &Params) -> Sut {
-    let unit = p.unit();
-    match kind {
-        Kind::Pid => {
-            let input = rc_ref_cell_reference(Scripted::<f32>::new());
-            let s = PIDControllerStream::new(input.clone(), p.x, PIDKValues::new(p.k[0], p.k[1], p.k[2]));
-            assemble(input, s, |v| v, flat_f32, no_unit)
-        }
-        Kind::CommandPid => {
-            let input = rc_ref_cell_reference(Scripted::<State>::new());
-            let s = CommandPID::new(input.clone(), command_of(p), kvals_of(p));
-            assemble(input, s, state_of, flat_f32, no_unit)
-        }
-        Kind::EwmaF32 => {
-            let input = rc_ref_cell_reference(Scripted::<f32>::new());
-            let s = EWMAStream::new(input.clone(), p.x);
-            assemble(input, s, |v| v, flat_f32, no_unit)
-        }
-        Kind::EwmaQuantity => {
-            let input = rc_ref_cell_reference(Scripted::<Quantity>::new());
-            let s = EWMAStream::new(input.clone(), p.x);
-            assemble(input, s, move |v| Quantity::new(v, unit), flat_q, q_unit)
-        }
-        Kind::MovingAverageF32 => {
-            let input = rc_ref_cell_reference(Scripted::<f32>::new());
-            let s = MovingAverageStream::new(input.clone(), Time(p.window));
-            assemble(input, s, |v| v, flat_f32, no_unit)
-        }
-        Kind::MovingAverageQuantity => {
-            let input = rc_ref_cell_reference(Scripted::<Quantity>::new());
-            let s = MovingAverageStream::new(input.clone(), Time(p.window));
-            assemble(input, s, move |v| Quantity::new(v, unit), flat_q, q_unit)
-        }
-        Kind::Integral => {
-            let input = rc_ref_cell_reference(Scripted::<Quantity>::new());
-            let s = IntegralStream::new(input.clone());
-            assemble(input, s, move |v| Quantity::new(v, unit), flat_q, q_unit)
-        }
-        Kind::Derivative => {
-            let input = rc_ref_cell_reference(Scripted::<Quantity>::new());
-            let s = DerivativeStream::new(input.clone());
-            assemble(input, s, move |v| Quantity::new(v, unit), flat_q, q_unit)
-        }
-        Kind::AccelerationToState => {
-            let input = rc_ref_cell_reference(Scripted::<Quantity>::new());
-            let s = AccelerationToState::new(input.clone());
-            assemble(input, s, move |v| Quantity::new(v, unit), flat_state, no_unit)
-        }
-        Kind::VelocityToState => {
-            let input = rc_ref_cell_reference(Scripted::<Quantity>::new());
-            let s = VelocityToState::new(input.clone());
-            assemble(input, s, move |v| Quantity::new(v, unit), flat_state, no_unit)
-        }
-        Kind::PositionToState => {
-            let input = rc_ref_cell_reference(Scripted::<Quantity>::new());
-            let s = PositionToState::new(input.clone());
-            assemble(input, s, move |v| Quantity::new(v, unit), flat_state, no_unit)
-        }
-        Kind::FloatToQuantity => {
-            let input = rc_ref_cell_reference(Scripted::<f32>::new());
-            let s = FloatToQuantity::new(unit, input.clone());
-            assemble(input, s, |v| v, flat_q, q_unit)
-        }
-        Kind::QuantityToFloat => {
-            let input = rc_ref_cell_reference(Scripted::<Quantity>::new());
-            let s = QuantityToFloat::new(input.clone());
-            assemble(input, s, move |v| Quantity::new(v, unit), flat_f32, no_unit)
-        }
-        Kind::Freeze => {
-            let input = rc_ref_cell_reference(Scripted::<f32>::new());
-            let cond = rc_ref_cell_reference(Scripted::<bool>::new());
-            let s = FreezeStream::new(cond.clone(), input.clone());
-            let mut sut = assemble(input, s, |v| v, flat_f32, no_unit);
-            sut.feed_cond = Box::new(move |c, t| {
-                cond.borrow_mut().cur = match c {
-                    CondEv::T => Ok(Some(Datum::new(Time(t), true))),
-                    CondEv::F => Ok(Some(Datum::new(Time(t), false))),
-                    CondEv::A => Ok(None),
-                    CondEv::E(e) => Err(mk_err(*e)),
-                };
-            });
-            sut
-        }
-    }
-}
-
-/// The unit a to-state converter requires.
-pub fn required_unit(kind: Kind) -> Option<(i8, i8)> {
-    match kind {
-        Kind::AccelerationToState => Some((1, -2)),
-        Kind::VelocityToState => Some((1, -1)),
-        Kind::PositionToState => Some((1, 0)),
-        _ => None,
-    }
-}
-
-/// absolute timestamps of a history: a present sample advances time by its dt.
-pub fn times_of(t0: i64, events: &[Ev]) -> Vec<i64> {
-    let mut t = t0;
-    events
-        .iter()
-        .map(|e| {
-            if let Ev::P(_, dt) = e {
-                t += dt;
-            }
-            t
-        })
-        .collect()
 }
 
 /// event strategy: weights present : absent : err1 : err2
